@@ -218,4 +218,11 @@ impl TulispContext {
     pub(crate) fn get_filename(&self, file_id: usize) -> String {
         self.filenames[file_id].clone()
     }
+
+    /// Verification hook: reads `string` without evaluating its top-level
+    /// forms, exactly as `eval_string` does before it evaluates them.
+    #[cfg(tulisp_verif)]
+    pub fn verif_parse(&mut self, string: &str) -> Result<TulispObject, Error> {
+        parse(self, 0, string)
+    }
 }
